@@ -3,6 +3,8 @@ import random
 
 from . import common
 from . import det_suite as ds
+from . import enginegen as eg
+from . import engine_suite as es
 
 CONFIGS = [dict(gomaxprocs=16, seq=False), dict(gomaxprocs=1, seq=False), dict(gomaxprocs=2, seq=True), dict(gomaxprocs=16, seq=True), dict(gomaxprocs=2, seq=False)]
 
@@ -36,6 +38,22 @@ def run(ctx):
     finally:
         ds.cleanup(mods)
     ctx.obligation("repeated analysis (%d fresh processes over %d modules; GOMAXPROCS 1/2/16, sequential and parallel driver): byte-identical diagnostics and byte-identical facts of every kind" % (total, len(mods)), total > 0 and not bad and not errs)
+    # engine level: the order in which the driver hands over the dependency facts (shuffled per run), with packages
+    # that share one package NAME and differ only in their import path
+    scs = [s for s in es.scenarios_for(ctx, 3000 if ctx.tier == "quick" else 60000) if any(len(p["imports"]) >= 2 for p in s.pkgs)]
+    variants = []
+    for sc in scs:
+        v = sc.copy()
+        for p in v.pkgs:
+            p["imports"] = list(reversed(p["imports"]))
+        variants.append(v)
+    rc1, out1, _ = eg.run_impl([s.line() for s in scs], gob=True)
+    rc2, out2, _ = eg.run_impl([s.line() for s in variants], gob=True)
+    hbad = [i for i in range(len(scs)) if rc1 == 0 and rc2 == 0 and out1[i] != out2[i]]
+    ctx.obligation("real engine on %d scenarios, facts handed over in one order and in the reverse order (same-named packages): identical conflicts, inferred maps and exported facts" % len(scs), rc1 == 0 and rc2 == 0 and not hbad)
+    for i in hbad[:2]:
+        ctx.violation("handover", "C04 fails on the real engine: the result depends on the order in which the driver hands over the dependency facts\n%s\nfacts in listed order:   %s\nfacts in reverse order:  %s\n" % (scs[i].pretty(), out1[i], out2[i]))
+    total += 2 * len(scs)
     ctx.coverage.update({"evaluations": total, "distinct_nontrivial": len(mods),
                          "rule": "modules with >= 2 annotated sites, >= 2 nolint comments, callers of >= 2 contracted functions, interfaces with 2 implementations, many functions over 3 files; each analysed repeatedly in fresh processes; a module is one distinct non-trivial case",
                          "note": "repetition is the search for a failing schedule / hash order; the claim is the theorems plus the classified inventory"})
